@@ -5,7 +5,7 @@ From VF Require Import Base Probe Raw.
 Local Open Scope Z_scope.
 
 (* probe case. cfg: [1; score0; awmax; interval; timeout; send; expected_nacks; tcp_enabled; tcp_mode(0 none,1 ok); tcp_at; seq]
-   ops: arrivals [kind(0 ack/1 nack); seq; at]; obs: [[suspected; score; handlers_left; aborted]] *)
+   ops: arrivals [kind(0 ack/1 nack); seq; at]; obs: [[suspected; score; handlers_left; aborted; probe duration]] *)
 Definition dec_arr (v : list int) : option arrival :=
   match v with [k; s; t] => Some (if Uint63.eqb k 0 then Ack (zi s) (zi t) else Nack (zi s) (zi t)) | _ => None end.
 Fixpoint dec_all {A} (f : list int -> option A) (l : list (list int)) : list A :=
@@ -13,13 +13,15 @@ Fixpoint dec_all {A} (f : list int -> option A) (l : list (list int)) : list A :
 
 Definition check_probe (cs : list int * (list (list int) * list (list int))) : verdict :=
   match fst cs, snd (snd cs) with
-  | [_; score0; awmax; itv; tmo; snd_; expn; tcpen; tcpm; tcpat; seq], [[susp; score; hleft; _]] =>
+  | [_; score0; awmax; itv; tmo; snd_; expn; tcpen; tcpm; tcpat; seq], [[susp; score; hleft; _; dur]] =>
       let i := (zi score0 + 1) * zi itv in
       let pi := mkPI (zi seq) i (zi tmo) (zi snd_) (dec_all dec_arr (fst (snd cs))) (zi expn)
                      (if Uint63.eqb tcpm 1 then Some (zi tcpat) else None) (bi tcpen) in
       (* monitors on the implementation's own observations *)
       if negb ((0 <=? zi score) && (zi score <=? zi awmax - 1)) then mkV 400 0
       else if negb (Uint63.eqb hleft 0) then mkV 401 0
+      (* the probe loop is sequential: one probe may keep it busy for its awareness-scaled interval, no longer *)
+      else if i <? zi dur then mkV 409 0
       else
         (* the verdict must be "answered" exactly when a matching ack came in time (spec = answered_iff) *)
         let answered := match probe_outcome pi with Answered => true | _ => false end in
